@@ -199,7 +199,16 @@ def main(tier, n=None):
     rep.extra["distinct_sites_in_uninjected_runs"] = len(all_sites)
     results = common.parallel_map(inject_case, cases, timeout=200)
     rep.merge_pool(results, cases)
-    return rep.finish(required_reach=["c16_injections", "c16_injections_with_live_children", "c16_child_checks"])
+    # the same property with real signals on the real kernel
+    from .. import procmon
+    ne1 = 60 if tier == "quick" else 1500
+    if n:
+        ne1 = max(4, n // 50)
+    c1 = procmon.gen_abort_cases(common.base_seed(), ne1)
+    r1 = common.parallel_map(procmon.eval_abort_case, c1, timeout=200)
+    rep.merge_pool(r1, c1)
+    rep.assumptions.append("E1: real SIGINT/SIGTERM sent to a real cond run while real task processes (probes that trap SIGTERM and log it) are held in flight at gates, or at random offsets during launch bursts")
+    return rep.finish(required_reach=["c16_injections", "c16_injections_with_live_children", "c16_child_checks", "c16_e1_real_signals", "c16_e1_signals_with_tasks_in_flight", "c16_e1_child_checks"])
 
 
 def replay(path):
